@@ -7,7 +7,7 @@ Require Import Fggs.Proofs.Axis_sem Fggs.Proofs.Axis_unify Fggs.Proofs.Axis_anti
 Require Import Fggs.Proofs.PTensor_sem Fggs.Proofs.PTensor_dense Fggs.Proofs.PTensor_views Fggs.Proofs.PTensor_unary.
 Require Import Fggs.Proofs.PTensor_binary Fggs.Proofs.PTensor_xval Fggs.Proofs.PTensor_transpose Fggs.Proofs.PTensor_expand.
 Require Import Fggs.Proofs.Axis_antiunify_inv.
-Require Import Fggs.Proofs.Axis_complete_gen Fggs.Proofs.Axis_typed Fggs.Proofs.Axis_total Fggs.Proofs.Axis_fuel Fggs.Proofs.Axis_mgu Fggs.Proofs.Axis_rank Fggs.Proofs.Axis_typed_check.
+Require Import Fggs.Proofs.Axis_complete_gen Fggs.Proofs.Axis_typed Fggs.Proofs.Axis_total Fggs.Proofs.Axis_fuel Fggs.Proofs.Axis_mgu Fggs.Proofs.Axis_rank Fggs.Proofs.Axis_typed_check Fggs.Proofs.Axis_typed_model.
 Local Open Scope nat_scope.
 
 (** * L2: the axis algebra *)
@@ -227,6 +227,11 @@ Print Assumptions C06_typed_subst_fits.
 Theorem C06_ty_b_sound : forall G e ps, ty_b G e ps = true -> ty G e ps.
 Proof. exact ty_b_sound. Qed.
 Print Assumptions C06_ty_b_sound.
+
+(** the context judgement is at least as strict as the Model's context-free [has_type] *)
+Theorem C06_ty_has_type : forall G e t, ty G e (tprimes t) -> has_type e t = true.
+Proof. exact ty_has_type. Qed.
+Print Assumptions C06_ty_has_type.
 
 Theorem C06_typed_universe_upto12 : forall t e f,
   In t (types_upto 12) -> In e (axes_of t 1) -> In f (axes_of t 50) ->
